@@ -27,3 +27,10 @@ package rng
 //@ func seedToInt64(seed string) (res int64, err error)
 //@   arith    wrap
 //@   ensures  "total": true
+//
+//@ func int64ToSeed(value int64) (res string)
+//@   trusted
+//
+//@ func NewRNG(seed string) (res *RNG, err error)
+//@   ensures "rng-or-error": (err == nil) == (res != nil) && (err == nil ==> fresh(res) && res.source != nil)
+//@   assert "global-rand-only-without-seed": at call rand.Int63#0: seed == ""
